@@ -27,7 +27,7 @@ Pool == <<
   Dir("right", <<HRule("e", Alt(Cat(UN, E), S("x")))>>),
   Dir("left",  <<HRule("l", Un("star", Cat(E, S(","))))>>),
   Dir("none",  <<HTerm("UN", FALSE), HEmptyRule("u")>>),
-  Dir("right", <<HRule("u", Alt(Cat(Un("opt", S("(")), S("x")), Un("plus", UN)))>>),
+  Dir("right", <<HTerm("x", TRUE), HRule("u", Alt(Cat(Un("opt", S("(")), S("x")), Un("plus", UN)))>>),   \* a rule handle of two alternatives BEHIND another handle (round 10)
   \* the rule g with the alternatives of its group and of its option written in another order: the same production
   Dir("left",  <<HRule("g", Cat(Cat(S("x"), Un("grp", Alt(S("*"), Alt(S("+"), S("<"))))), Un("opt", Alt(UN, EQ))))>>)
 >>
